@@ -408,6 +408,7 @@ def _finish(mod, ctx, args, axioms, obligations, discharged, cmds, build_log):
             "broken_obligations": [b["name"] for b in ctx.broken],
         })
         lines.append("VIOLATION property=%s replay=%s" % (prop, path))
+        lines.append("  what: " + str(v["what"]).replace("\n", " ")[:600])
         exit_code = 1
         nviol = len(ctx.violations)
     elif ctx.broken:
